@@ -24,6 +24,7 @@ M = [
  ("C12-2","C12","src/epoch/ops.rs","        if *self < other {\n            *self","        if self.duration < other.duration {\n            *self","Epoch::min compares raw durations, ignoring the time scales"),
  ("C13-1","C13","src/duration/parse.rs","    if !s.is_ascii() {","    if false && !s.is_ascii() {","regression: parse_offset slices non-ASCII input"),
  ("C14-1","C14","src/duration/mod.rs","Self::from_total_nanoseconds(if total_ns - floored_ns < ceiled_ns - total_ns {","Self::from_total_nanoseconds(if total_ns - floored_ns <= ceiled_ns - total_ns {","round: ties go down"),
+ ("C15-1","C15","src/timeseries.rs","    fn size_hint(&self) -> (usize, Option<usize>) {\n        (self.len(), Some(self.len().saturating_add(1)))","    fn nth(&mut self, n: usize) -> Option<Epoch> {\n        self.cur = n as i64;\n        self.next()\n    }\n\n    fn size_hint(&self) -> (usize, Option<usize>) {\n        (self.len(), Some(self.len().saturating_add(1)))","an Iterator::nth override that reads n as an absolute index (wrong on a partially consumed series and under skip / step_by)"),
  ("C16-1","C16","src/epoch/ops.rs","(days.rem_euclid(Weekday::DAYS_PER_WEEK_I128) as u8).into()","((days % Weekday::DAYS_PER_WEEK_I128) as u8).into()","weekday uses % instead of rem_euclid: wrong before 1900"),
  ("C18-2","C18","src/timeunits.rs","            if total_ns.abs() < (i64::MAX as f64) {\n                Duration::from_truncated_nanoseconds(total_ns as i64)\n            } else {\n                Duration::from_total_nanoseconds(total_ns as i128)\n            }\n        }\n    }\n}\n\n#[test]","            if total_ns.abs() <= (i64::MAX as f64) {\n                Duration::from_truncated_nanoseconds(total_ns as i64)\n            } else {\n                Duration::from_total_nanoseconds(total_ns as i128)\n            }\n        }\n    }\n}\n\n#[test]","Unit * f64: i64 cast used at exactly 2^63 (saturating cast loses one nanosecond)"),
  ("C19-1","C19","src/efmt/formatter.rs","                        if !item.optional || nanos > 0 {","                        if !item.optional || nanos >= 1000 {","optional %f? omitted below one microsecond"),
